@@ -592,7 +592,15 @@ pub fn crash_histories(tier: &str) -> Vec<CrashHistory> {
                 }
                 c
             },
-            ops: vec![Op::Put { k: 0, big: true }, Op::Put { k: 1, big: false }, fl.clone(), Op::Put { k: 0, big: true }, fl.clone(), Op::Major { w: Wm::Tight, target: u64::MAX }],
+            ops: vec![
+                Op::Put { k: 0, big: true },
+                Op::Put { k: 1, big: true },
+                fl.clone(),
+                Op::Put { k: 0, big: true },
+                fl.clone(),
+                Op::Major { w: Wm::Tight, target: u64::MAX },
+                Op::Major { w: Wm::Tight, target: u64::MAX },
+            ],
         },
     ];
     if tier != "quick" {
@@ -803,7 +811,7 @@ pub fn run(tier: &str, threads: usize, max_wall_s: f64, leftover_mode: bool) -> 
                     vec![done_ops]
                 };
                 n_cuts += 1;
-                let (imgs, hit) = sim.images(if tier == "quick" { 64 } else { 4096 });
+                let (imgs, hit) = sim.images(if tier == "quick" { 256 } else { 4096 });
                 if hit {
                     cap_hits += 1;
                 }
